@@ -9,7 +9,7 @@ package zapcore
 // ---------------------------------------------------------------------------
 // shared specification functions
 
-//@ spec func enabled(e Iface, l type(Level)) bool
+//@ spec func enabled(e Iface, l zapcore.Level) bool
 //@ spec func minOver(a arr(int), k int) int
 //@ axiom minOver_base: forall a arr(int) :: minOver(a, 1) == a[0]
 //@ axiom minOver_step: forall a arr(int), k int :: k >= 1 ==> minOver(a, k+1) == (a[k] < minOver(a, k) ? a[k] : minOver(a, k))
@@ -31,14 +31,15 @@ package zapcore
 // implementation, including user-supplied ones (encapsulation rely).
 //@ iface zapcore.Core.Check
 //@   params ent ce
+//@   requires ce != nil ==> forall i int :: 0 <= i && i < len(ce.cores) ==> ce.cores[i] != nil
 //@   modifies $user, zapcore.CheckedEntry.cores, comp(E:zapcore.Core)
 //@   ensures ce != nil ==> result == ce
-//@   ensures ce == nil && result != nil ==> fresh(result)
+//@   ensures ce == nil && result != nil ==> fresh(result) && result.Entry == ent
 //@   ensures result != nil ==> len(result.cores) >= (ce == nil ? 0 : old(len(ce.cores)))
 //@   ensures ce != nil ==> forall i int :: 0 <= i && i < old(len(ce.cores)) ==> result.cores[i] == old(ce.cores[i])
 //@   ensures result != nil ==> (ce != nil && arr(result.cores) == old(arr(ce.cores))) || arr(result.cores) == nil || fresh(result.cores)
 //@   ensures result != nil ==> forall i int :: 0 <= i && i < len(result.cores) ==> result.cores[i] != nil
-//@   ensures elems_frame(type(zapcore.Core), result == nil ? zero(type([]zapcore.Core)) : result.cores)
+//@   ensures elems_frame(type(zapcore.Core), ce == nil ? zero(type([]zapcore.Core)) : old(ce.cores))
 
 //@ iface zapcore.WriteSyncer.Write
 //@   modifies $user
@@ -81,6 +82,8 @@ package zapcore
 //@   ensures old(c.resetAt.v) <= unixNano(t) ==> c.counter.v == 1 && c.resetAt.v == unixNano(t) + int64(tick) && result == 1
 
 //@ func (*zapcore.sampler).Check
+//@   refines zapcore.Core.Check
+//@   requires ce != nil ==> forall i int :: 0 <= i && i < len(ce.cores) ==> ce.cores[i] != nil
 //@   props C11 C05
 //@   arith bv
 //@   flags nopanic
@@ -367,12 +370,14 @@ package zapcore
 //@   ensures result.cores[len(result.cores) - 1] == core
 //@   ensures ce != nil ==> forall i int :: 0 <= i && i < old(len(ce.cores)) ==> result.cores[i] == old(ce.cores[i])
 //@   ensures (ce != nil && arr(result.cores) == old(arr(ce.cores))) || fresh(result.cores)
-//@   ensures elems_frame(type(Core), result.cores)
+//@   ensures elems_frame(type(Core), ce == nil ? zero(type([]Core)) : old(ce.cores))
 
 // ---------------------------------------------------------------------------
 // core.go, tee.go, increase_level.go, hook.go: Check / Enabled / Level (C05)
 
 //@ func (*zapcore.ioCore).Check
+//@   refines zapcore.Core.Check
+//@   requires ce != nil ==> forall i int :: 0 <= i && i < len(ce.cores) ==> ce.cores[i] != nil
 //@   props C05
 //@   flags nopanic
 //@   requires c != nil && c.LevelEnabler != nil && _cePool != nil
@@ -384,10 +389,12 @@ package zapcore
 //@   ensures !enabled(c.LevelEnabler, ent.Level) ==> #ADD == 0 && result == ce
 
 //@ func (zapcore.multiCore).Check
+//@   refines zapcore.Core.Check
 //@   props C05 C04
 //@   flags nopanic
 //@   requires forall k int :: 0 <= k && k < len(mc) ==> mc[k] != nil
 //@   requires ce != nil ==> root(arr(ce.cores)) != root(arr(mc))
+//@   requires ce != nil ==> forall i int :: 0 <= i && i < len(ce.cores) ==> ce.cores[i] != nil
 //@   track CK = invoke zapcore.Core.Check
 //@   ensures #CK == len(mc)
 //@   ensures forall k int :: 0 <= k && k < len(mc) ==> CK.recv[k] == old(mc[k]) && CK.arg0[k] == ent
@@ -401,6 +408,13 @@ package zapcore
 //@   loop 1 invariant $idx > 0 ==> CK.arg1[0] == param(ce) && ce == CK.ret0[$idx - 1]
 //@   loop 1 invariant forall k int :: 0 < k && k < $idx ==> CK.arg1[k] == CK.ret0[k - 1]
 //@   loop 1 invariant ce != nil ==> root(arr(ce.cores)) != root(arr(mc))
+//@   loop 1 invariant param(ce) != nil ==> ce == param(ce)
+//@   loop 1 invariant param(ce) == nil && ce != nil ==> fresh(ce) && ce.Entry == ent
+//@   loop 1 invariant ce != nil ==> len(ce.cores) >= (param(ce) == nil ? 0 : old(len(param(ce).cores)))
+//@   loop 1 invariant param(ce) != nil ==> forall i int :: 0 <= i && i < old(len(param(ce).cores)) ==> ce.cores[i] == old(param(ce).cores[i])
+//@   loop 1 invariant ce != nil ==> (param(ce) != nil && arr(ce.cores) == old(arr(param(ce).cores))) || arr(ce.cores) == nil || fresh(ce.cores)
+//@   loop 1 invariant ce != nil ==> forall i int :: 0 <= i && i < len(ce.cores) ==> ce.cores[i] != nil
+//@   loop 1 invariant elems_frame(type(Core), param(ce) == nil ? zero(type([]Core)) : old(param(ce).cores))
 
 //@ func (zapcore.multiCore).Enabled
 //@   props C05
@@ -426,6 +440,8 @@ package zapcore
 //@   ensures #LO == 1 && LO.arg0[0] == c.level && result == LO.ret0[0]
 
 //@ func (*zapcore.levelFilterCore).Check
+//@   refines zapcore.Core.Check
+//@   requires ce != nil ==> forall i int :: 0 <= i && i < len(ce.cores) ==> ce.cores[i] != nil
 //@   props C05
 //@   flags nopanic
 //@   requires c != nil && c.level != nil && c.core != nil
@@ -445,6 +461,8 @@ package zapcore
 // hooked.Check, from the property statement: the hook core is added exactly when the wrapped
 // core accepted the entry, i.e. when the wrapped Check added at least one core.
 //@ func (*zapcore.hooked).Check
+//@   refines zapcore.Core.Check
+//@   requires ce != nil ==> forall i int :: 0 <= i && i < len(ce.cores) ==> ce.cores[i] != nil
 //@   props C05
 //@   flags nopanic
 //@   requires h != nil && h.Core != nil && _cePool != nil
@@ -513,3 +531,15 @@ package zapcore
 //@ lemma level_empty_is_info
 //@   props C20
 //@   statement isLevelName("") && levelOfName("") == 0
+
+//@ func (*zapcore.CheckedEntry).After
+//@   props C06
+//@   flags nopanic
+//@   modifies ce.after, comp(E:zapcore.Core)
+//@   ensures ce != nil ==> result == ce && result.Entry == old(ce.Entry) && result.cores == old(ce.cores) && result.dirty == old(ce.dirty) && result.ErrorOutput == old(ce.ErrorOutput)
+//@   ensures ce == nil ==> fresh(result) && result.Entry == ent && len(result.cores) == 0 && !result.dirty && result.ErrorOutput == nil
+//@   ensures result != nil && result.after == hook
+//@   ensures elems_frame(type(Core), zero(type([]Core)))
+
+//@ iface zapcore.Clock.Now
+//@   modifies $user
